@@ -48,6 +48,10 @@ theorem safe_slice {B : Nat} {b : Bytes} {i j : Int} {k : Bytes → Res}
   simp only [List.length_take, List.length_drop]
   omega
 
+theorem safe_index {B blen : Nat} {i : Int} {k : Res} (h : 0 ≤ i ∧ i < blen) (hk : Safe B k) :
+    Safe B (Res.index blen i k) := by
+  unfold Res.index; simp only [h, and_self, if_true]; exact hk
+
 theorem safe_sliceLen {B blen : Nat} {i j : Int} {k : Nat → Res}
     (h : 0 ≤ i ∧ i ≤ j ∧ j ≤ blen)
     (hk : ∀ l : Nat, l = (j - i).toNat → Safe B (k l)) : Safe B (Res.sliceLen blen i j k) := by
